@@ -703,11 +703,17 @@ def expr_pde_cases(draw, jit=False):
     if draw(st.booleans()):
         varlist += [{"name": ax, "lo": b[0], "hi": b[1], "n": 0} for ax, b in zip(axes, GG.axes_bounds(spec))]
     consts = []
-    for cname in draw(st.sampled_from([[], ["k0"], ["kf"], ["k0", "kf"]])):
-        if cname == "k0":
-            consts.append({"name": "k0", "value": float(draw(st.sampled_from([2.0, 0.5, -1.5, 0.25])))})
+    # 0-3 constants in *drawn* (not alphabetical) order with distinct values; added after the
+    # independently seeded change C10-2 (constants bound by sorted names but insertion-ordered
+    # values) was missed when the order was always ["k0", "kf"]
+    cnames = draw(st.one_of(st.sampled_from([[], ["k0"], ["kf"], ["k0", "kf"]]),
+                            st.lists(st.sampled_from(["k0", "kf", "a1", "Zc", "m2"]), unique=True, max_size=3)))
+    svalues = draw(st.permutations([2.0, 0.5, -1.5, 0.25, 3.0]))
+    for j, cname in enumerate(cnames):
+        if cname in ("kf", "Zc"):
+            consts.append({"name": cname, "lo": 0.5, "hi": 2.0, "seed": draw(st.integers(0, 2**31))})
         else:
-            consts.append({"name": "kf", "lo": 0.5, "hi": 2.0, "seed": draw(st.integers(0, 2**31))})
+            consts.append({"name": cname, "value": float(svalues[j])})
     leaves, ranges = G.leaves_and_ranges(varlist, consts)
     rhs = {}
     vector_mode = spec["cls"] in ("unit", "cart") and draw(st.sampled_from([False, False, False, True]))
